@@ -1,4 +1,5 @@
 """C04 Quantification, restriction, apply-and-quantify, substitution: wiring and dualisation tables"""
+import edm
 import esubst
 import etaut
 import eprep
@@ -52,4 +53,8 @@ def run(ctx):
                 "number out once (one atomic read-modify-write on a counter wider than the id, range-checked), and the "
                 "Substitution holders return the id they were given.")
     esubst.run(ctx, F)
+    ctx.explain("E-CACHE.dm: the results of the recursion are memoised in the direct-mapped apply cache, which holds uncounted "
+                "edges: it compares and hashes all key parts, and every entry is cleared (under its lock) in pre_gc / before a "
+                "reordering, so that no entry survives the collection of one of its nodes and is served for a recycled id.")
+    edm.run(ctx, F)
     ctx.not_decided = "the induction over the diagram, behaviour under memory exhaustion"
